@@ -56,6 +56,25 @@ static long alloc_live_bytes, alloc_peak_bytes, alloc_calls;
 static int use_custom_alloc;
 static int alloc_state_cookie = 0x5ca1e;
 
+/*
+ * The caller's allocator is not the C library's: its blocks carry a 16-byte header, so a block that
+ * the library releases with free() instead of alloc->free() (or the other way round) is an
+ * invalid free, and what it took from the allocator it must give back to it (balance at the end).
+ */
+#define CA_HDR 16
+#define CA_MAGIC 0xa110c8edUL
+static void *aligned_blocks[16];
+
+static void *ca_wrap(void *raw, size_t size)
+{
+	if (!raw)
+		return NULL;
+	((unsigned long *) raw)[0] = CA_MAGIC;
+	((unsigned long *) raw)[1] = size;
+	__atomic_add_fetch(&alloc_live_bytes, (long) size, __ATOMIC_RELAXED);
+	return (char *) raw + CA_HDR;
+}
+
 static void *ca_malloc(void *state, size_t size)
 {
 	if (state != &alloc_state_cookie)
@@ -63,7 +82,7 @@ static void *ca_malloc(void *state, size_t size)
 	if (usim_fault("lfht_work_alloc_fail", 1, 3))
 		return NULL;
 	alloc_calls++;
-	return malloc(size);
+	return ca_wrap(malloc(size + CA_HDR), size);
 }
 
 static void *ca_calloc(void *state, size_t n, size_t size)
@@ -74,31 +93,59 @@ static void *ca_calloc(void *state, size_t n, size_t size)
 	alloc_calls++;
 	if (size == sizeof(struct cds_lfht_node) && n > (max_buckets > min_alloc ? max_buckets : min_alloc))
 		usim_fail("lfht-bucket-bound", "bucket allocation of %zu buckets exceeds max_nr_buckets=%lu", n, max_buckets);
-	p = calloc(n, size);
+	p = calloc(1, n * size + CA_HDR);
 	usim_mem_tag(p, "lfht-table-mem");
-	return p;
+	return ca_wrap(p, n * size);
 }
+
+static void ca_free(void *state, void *ptr);
 
 static void *ca_realloc(void *state, void *ptr, size_t size)
 {
-	(void) state;
-	return realloc(ptr, size);
+	void *n = ca_malloc(state, size);
+	if (n && ptr) {
+		size_t old = ((unsigned long *) ((char *) ptr - CA_HDR))[1];
+		memcpy(n, ptr, old < size ? old : size);
+		ca_free(state, ptr);
+	}
+	return n;
 }
 
 static void *ca_aligned_alloc(void *state, size_t align, size_t size)
 {
 	void *p = NULL;
+	int i;
 	(void) state;
 	if (posix_memalign(&p, align, size))
 		return NULL;
+	for (i = 0; i < 16; i++)
+		if (!__atomic_load_n(&aligned_blocks[i], __ATOMIC_RELAXED)) {
+			__atomic_store_n(&aligned_blocks[i], p, __ATOMIC_RELAXED);
+			break;
+		}
 	return p;
 }
 
 static void ca_free(void *state, void *ptr)
 {
+	unsigned long *raw;
+	int i;
 	if (state != &alloc_state_cookie)
 		usim_fail("lfht-alloc", "custom allocator called with a wrong state pointer");
-	free(ptr);
+	if (!ptr)
+		return;
+	for (i = 0; i < 16; i++)
+		if (__atomic_load_n(&aligned_blocks[i], __ATOMIC_RELAXED) == ptr) {
+			__atomic_store_n(&aligned_blocks[i], NULL, __ATOMIC_RELAXED);
+			free(ptr);
+			return;
+		}
+	raw = (unsigned long *) ((char *) ptr - CA_HDR);
+	if (raw[0] != CA_MAGIC)
+		usim_fail("lfht-alloc", "alloc->free() called with %p, which this allocator never handed out", ptr);
+	raw[0] = 0;
+	__atomic_sub_fetch(&alloc_live_bytes, (long) raw[1], __ATOMIC_RELAXED);
+	free(raw);
 }
 
 static const struct cds_lfht_alloc custom_alloc = {
@@ -799,6 +846,9 @@ static void run_common(int m)
 				free(all[t]);
 		}
 	}
+	if (use_custom_alloc && !(ht_flags & CDS_LFHT_AUTO_RESIZE) && __atomic_load_n(&alloc_live_bytes, __ATOMIC_RELAXED) != 0)
+		usim_fail("lfht-alloc-leak", "after cds_lfht_destroy() %ld bytes obtained from the caller's allocator were not given back to it",
+			__atomic_load_n(&alloc_live_bytes, __ATOMIC_RELAXED));
 	if (F->is_qsbr)
 		F->thread_offline();
 	usim_quiet_vote();
